@@ -162,8 +162,8 @@ static XLoc x86_locate(const uint8_t* p, int len, bool is64) {
   if ((p[i] == 0xC5 || p[i] == 0xC4 || p[i] == 0x62) && i + 1 < len && (is64 || (p[i + 1] & 0xC0) == 0xC0)) {
     L.vex = true;
     if (p[i] == 0xC5) { L.map = 1; i += 2; }
-    else if (p[i] == 0xC4) { L.map = p[i + 1] & 0x1F; if (p[i + 2] & 0x80) L.rex |= 0x48; i += 3; }
-    else { L.map = p[i + 1] & 7; if (p[i + 2] & 0x80) L.rex |= 0x48; i += 4; }
+    else if (p[i] == 0xC4) { L.map = p[i + 1] & 0x1F; if (p[i + 2] & 0x80) L.rex |= 0x48; if (!(p[i + 1] & 0x40)) L.rex |= 0x42; i += 3; }   // ~X
+    else { L.map = p[i + 1] & 7; if (p[i + 2] & 0x80) L.rex |= 0x48; if (!(p[i + 1] & 0x40)) L.rex |= 0x42; i += 4; }
   }
   else if (p[i] == 0x0F) {
     i++;
@@ -176,6 +176,9 @@ static XLoc x86_locate(const uint8_t* p, int len, bool is64) {
   }
   if (!L.vex && ((L.map == 0 && (L.op == 0xE9 || L.op == 0xE8)) || (L.map == 1 && (L.op & 0xF0) == 0x80))) {
     L.cls = XC_BRANCH; L.fpos = i; L.fsize = 4; L.trail = len - i - 4; return L;
+  }
+  if (!L.vex && L.map == 0 && L.op == 0xC7 && i < len && p[i] == 0xF8) {   // xbegin rel32 (C7 F8 cd)
+    L.cls = XC_BRANCH; L.modrm = 0xF8; L.fpos = i + 1; L.fsize = 4; L.trail = len - i - 5; return L;
   }
   if (!L.vex && L.map == 0 && L.op >= 0xA0 && L.op <= 0xA3) {
     L.cls = XC_MOFFS; L.fpos = i; L.fsize = is64 ? (L.has67 ? 4 : 8) : (L.has67 ? 2 : 4); L.trail = len - i - L.fsize; return L;
@@ -198,11 +201,12 @@ static XLoc x86_locate(const uint8_t* p, int len, bool is64) {
 }
 
 // AArch64 classes and field extraction.
-enum { AC_BAD = 0, AC_B, AC_BL, AC_BCOND, AC_CBZ, AC_CBNZ, AC_TBZ, AC_TBNZ, AC_ADR, AC_ADRP, AC_LDRLIT };
+enum { AC_BAD = 0, AC_B, AC_BL, AC_BCOND, AC_CBZ, AC_CBNZ, AC_TBZ, AC_TBNZ, AC_ADR, AC_ADRP, AC_LDRLIT, AC_BC, AC_PRFMLIT };
 static int a64_class(uint32_t w) {
   if ((w >> 26) == 0x05) return AC_B;
   if ((w >> 26) == 0x25) return AC_BL;
-  if ((w >> 24) == 0x54 && !(w & 0x10)) return AC_BCOND;
+  if ((w >> 24) == 0x54) return (w & 0x10) ? AC_BC : AC_BCOND;
+  if ((w >> 24) == 0xD8) return AC_PRFMLIT;
   if (((w >> 25) & 0x3F) == 0x1A) return (w >> 24) & 1 ? AC_CBNZ : AC_CBZ;
   if (((w >> 25) & 0x3F) == 0x1B) return (w >> 24) & 1 ? AC_TBNZ : AC_TBZ;
   if (((w >> 24) & 0x1F) == 0x10) return (w >> 31) ? AC_ADRP : AC_ADR;
@@ -210,7 +214,7 @@ static int a64_class(uint32_t w) {
   return AC_BAD;
 }
 static int a64_fmt_of_class(int c) {
-  switch (c) { case AC_B: case AC_BL: return F_IMM26; case AC_BCOND: case AC_CBZ: case AC_CBNZ: case AC_LDRLIT: return F_IMM19;
+  switch (c) { case AC_B: case AC_BL: return F_IMM26; case AC_BCOND: case AC_CBZ: case AC_CBNZ: case AC_LDRLIT: case AC_BC: case AC_PRFMLIT: return F_IMM19;
                case AC_TBZ: case AC_TBNZ: return F_IMM14; case AC_ADR: return F_ADR; case AC_ADRP: return F_ADRP; default: return F_NONE; }
 }
 // displacement in bytes designated by the instruction word (for adrp: page delta in bytes)
@@ -230,11 +234,13 @@ static int64_t a64_disp(uint32_t w, int f) {
 // ---------------------------------------------------------------------------------------------------------
 
 enum Kind { K_JMP = 0, K_JCC, K_CALL, K_JECXZ, K_LOOP, K_MEM, K_EMBED, K_DELTA,
-            K_B, K_BL, K_BCOND, K_CBZ, K_CBNZ, K_TBZ, K_TBNZ, K_ADR, K_ADRP, K_LDRLIT, K_COUNT };
+            K_B, K_BL, K_BCOND, K_CBZ, K_CBNZ, K_TBZ, K_TBNZ, K_ADR, K_ADRP, K_LDRLIT,
+            K_XBEGIN, K_BC, K_PRFM, K_COUNT };   // variants with an encoder branch of their own (appended: older numbering stays)
 static const char* kKindName[] = { "jmp", "jcc", "call", "jecxz", "loop", "mem", "embed_label", "embed_label_delta",
-                                   "b", "bl", "b.cond", "cbz", "cbnz", "tbz", "tbnz", "adr", "adrp", "ldr-literal" };
-static bool kind_is_x86(int k) { return k <= K_MEM; }
-static bool kind_is_a64(int k) { return k >= K_B; }
+                                   "b", "bl", "b.cond", "cbz", "cbnz", "tbz", "tbnz", "adr", "adrp", "ldr-literal",
+                                   "xbegin", "bc.cond", "prfm-literal" };
+static bool kind_is_x86(int k) { return k <= K_MEM || k == K_XBEGIN; }
+static bool kind_is_a64(int k) { return (k >= K_B && k <= K_LDRLIT) || k == K_BC || k == K_PRFM; }
 
 enum Pat { P_R_M, P_M_R, P_M_I, P_R_M_I, P_M_R_I, P_X_M, P_X_M_I, P_X_X_M, P_X_X_M_I };
 struct MemVar { const char* name; uint32_t inst; int pat; int msize; int rbits; int64_t imm; int trail; int archmask; };
@@ -263,6 +269,8 @@ static const int kNumMemVars = int(sizeof(kMemVars) / sizeof(kMemVars[0]));
 
 struct RefSpec {
   int kind = K_JMP; int label = 0; int base = -1; int32_t disp = 0; int opt = 0; int var = 0; int size = 0; int reg = 0; int cc = 0; int bit = 0; bool idx = false;
+  int hint = 0;      // jcc: 1 = taken(), 2 = not_taken()
+  bool rex = false;  // jmp/call: rex() forced (x86-64)
 };
 
 static x86::Vec x86_vec(int bits, int id) { return bits == 128 ? x86::xmm(id) : bits == 256 ? x86::ymm(id) : x86::zmm(id); }
@@ -293,9 +301,10 @@ static void x86_opt(x86::Assembler& a, int opt) { if (opt == 1) a.short_(); else
 
 static Error emit_x86_ref(x86::Assembler& a, bool is64, const RefSpec& r, const Label& L, const Label& B) {
   switch (r.kind) {
-    case K_JMP:   x86_opt(a, r.opt); return a.jmp(L);
-    case K_JCC:   x86_opt(a, r.opt); return a.j(x86::CondCode(r.cc & 15), L);
-    case K_CALL:  x86_opt(a, r.opt); return a.call(L);
+    case K_JMP:   x86_opt(a, r.opt); if (r.rex) a.rex(); return a.jmp(L);
+    case K_JCC:   x86_opt(a, r.opt); if (r.hint == 1) a.taken(); else if (r.hint == 2) a.not_taken(); return a.j(x86::CondCode(r.cc & 15), L);
+    case K_CALL:  x86_opt(a, r.opt); if (r.rex) a.rex(); return a.call(L);
+    case K_XBEGIN: x86_opt(a, r.opt); return a.xbegin(L);
     case K_JECXZ: x86_opt(a, r.opt); return (r.var & 1) ? a.jecxz(is64 ? x86::rcx : x86::ecx, L) : a.jecxz(is64 ? x86::ecx : x86::cx, L);
     case K_LOOP:  x86_opt(a, r.opt); return (r.var % 3) == 0 ? a.loop(L) : (r.var % 3) == 1 ? a.loope(L) : a.loopne(L);
     case K_MEM: {
@@ -314,6 +323,8 @@ static Error emit_a64_ref(a64::Assembler& a, const RefSpec& r, const Label& L, c
     case K_B:     return a.b(L);
     case K_BL:    return a.bl(L);
     case K_BCOND: return a.b(arm::CondCode(2 + (r.cc % 14)), L);
+    case K_BC:    return a.bc(arm::CondCode(2 + (r.cc % 14)), L);
+    case K_PRFM:  { static const uint32_t ops[] = { 0, 1, 2, 3, 4, 5, 8, 16, 17, 21 }; return a.prfm(Imm(ops[r.var % 10]), a64::ptr(L, r.disp)); }
     case K_CBZ:   return (r.var & 1) ? a.cbz(a64::x(id), L) : a.cbz(a64::w(id), L);
     case K_CBNZ:  return (r.var & 1) ? a.cbnz(a64::x(id), L) : a.cbnz(a64::w(id), L);
     case K_TBZ:   return (r.bit >= 32) ? a.tbz(a64::x(id), Imm(r.bit & 63), L) : a.tbz(a64::w(id), Imm(r.bit & 31), L);
@@ -339,7 +350,7 @@ static Error emit_a64_ref(a64::Assembler& a, const RefSpec& r, const Label& L, c
 
 static int a64_expected_class(int kind) {
   switch (kind) { case K_B: return AC_B; case K_BL: return AC_BL; case K_BCOND: return AC_BCOND; case K_CBZ: return AC_CBZ; case K_CBNZ: return AC_CBNZ;
-                  case K_TBZ: return AC_TBZ; case K_TBNZ: return AC_TBNZ; case K_ADR: return AC_ADR; case K_ADRP: return AC_ADRP; case K_LDRLIT: return AC_LDRLIT; }
+                  case K_TBZ: return AC_TBZ; case K_TBNZ: return AC_TBNZ; case K_ADR: return AC_ADR; case K_ADRP: return AC_ADRP; case K_LDRLIT: return AC_LDRLIT; case K_BC: return AC_BC; case K_PRFM: return AC_PRFMLIT; }
   return AC_BAD;
 }
 
@@ -347,12 +358,17 @@ static int a64_expected_class(int kind) {
 // C03 program specification (pure data from the seed)
 // ---------------------------------------------------------------------------------------------------------
 
-enum ItemT { I_REF, I_BIND, I_ALIGN, I_DATA, I_SECTION, I_PADFWD, I_PADBWD };
+enum ItemT { I_REF, I_BIND, I_ALIGN, I_DATA, I_SECTION, I_PADFWD, I_PADBWD, I_BINDFAR };
 struct Item { int t = I_DATA; RefSpec r; int label = 0; int sec = 0; int amode = 0; uint32_t aval = 0; uint64_t n = 0; int64_t v = 0; int refitem = -1; int est = 0; };
 struct SecSpec { uint32_t align = 1; int32_t order = 0; };
 struct ProgSpec {
   int arch = A_X64; std::vector<SecSpec> secs; int nlabels = 0; std::vector<Item> items;
   bool manual = false; bool allow_xsec_bound = false; uint64_t base = 0x10000; uint64_t lseed = 0; int profile = 0;
+  bool predicted = false;      // EncodingOptions::kPredictedJumps: taken()/not_taken() emit a 3E/2E prefix
+  bool tiny_base = false;      // base 0 / 0x100 / 0x8000: 1- and 2-byte embed_label can be representable
+  int midpass = -1;            // >= 0: flatten() + resolve_cross_section_fixups() run once after this item, the rest of the
+                               // program goes to the section that is laid out last (earlier offsets stay put)
+  bool resolve_again = false;  // final flatten()/resolve run twice
 };
 
 static int pick_kind(Rng& r, int arch) {
@@ -407,6 +423,7 @@ static int64_t near_limit_value(Rng& r, int f, bool fwd, bool inside) {
 
 static ProgSpec gen_c03(Rng& r, int profile) {
   ProgSpec P; P.profile = profile;
+  Rng sr(r.s ^ 0xC03D1A5EED5ull);     // side stream for the dimensions added later: the main stream draws exactly as before
   { uint64_t x = r.below(100); P.arch = x < 40 ? A_X64 : x < 65 ? A_X86 : A_A64; }
   if (profile == 2) P.arch = r.chance(1, 2) ? A_X64 : A_A64;
   if (profile >= 3) P.arch = A_X64;
@@ -425,6 +442,9 @@ static ProgSpec gen_c03(Rng& r, int profile) {
   bool clean = !never_bind && r.chance(2, 5);      // everything representable: the program must end with unresolved_fixup_count()==0
   P.base = P.arch == A_X86 ? (r.chance(1, 2) ? 0x10000u : 0x08048000u) : (r.chance(1, 3) ? 0x10000ull : r.chance(1, 2) ? 0x7f3a12340000ull : 0x400000ull);
   P.lseed = r.next();
+  P.predicted = sr.chance(3, 4);
+  P.resolve_again = sr.chance(1, 2);
+  if (!clean && profile < 2 && sr.chance(1, 6)) { static const uint64_t tb[] = { 0, 0, 0x100, 0x8000 }; P.tiny_base = true; P.base = tb[sr.below(4)]; }
 
   std::vector<bool> bound;     // generator-level: label has a BIND item already
   std::vector<int> unbound;
@@ -436,6 +456,25 @@ static ProgSpec gen_c03(Rng& r, int profile) {
     if (clean && !scenario && it.r.opt == 1) it.r.opt = 0;
     if (clean && it.r.kind == K_EMBED && it.r.size == 4 && P.arch != A_X86) it.r.size = 8;
     if (opt_override >= 0) it.r.opt = opt_override;
+    {
+      // ---- variants drawn from the side stream
+      RefSpec& s = it.r; bool x64 = P.arch == A_X64;
+      switch (s.kind) {
+        case K_CALL:   if (!scenario && s.opt != 1 && sr.chance(1, 6)) s.kind = K_XBEGIN; else if (x64 && sr.chance(1, 6)) s.rex = true; break;
+        case K_JMP:    if (x64 && sr.chance(1, 6)) s.rex = true; break;
+        case K_JCC:    if (sr.chance(1, 3)) s.hint = int(1 + sr.below(2)); break;
+        case K_BCOND:  if (sr.chance(1, 4)) s.kind = K_BC; break;
+        case K_LDRLIT: if (sr.chance(1, 6)) s.kind = K_PRFM; break;
+        case K_MEM: {
+          // addends at the ends of the int32 range (the displacement itself is label + addend - end of instruction)
+          static const int32_t ex[] = { INT32_MIN, INT32_MIN + 3, INT32_MIN + 9, INT32_MAX, INT32_MAX - 6, INT32_MIN + 4, INT32_MAX - 1 };
+          if (!clean && !scenario && sr.chance(1, x64 ? 10 : 40)) s.disp = ex[sr.below(7)];
+          break;
+        }
+        case K_EMBED:  if (!clean && sr.chance(1, P.tiny_base ? 3 : 40)) s.size = sr.chance(1, 2) ? 1 : 2; break;
+        default: break;
+      }
+    }
     P.items.push_back(it); return int(P.items.size()) - 1;
   };
   auto push_bind = [&](int label) { Item it; it.t = I_BIND; it.label = label; bound[size_t(label)] = true; P.items.push_back(it); };
@@ -447,6 +486,22 @@ static ProgSpec gen_c03(Rng& r, int profile) {
   for (int c = 0; c < nchunks; c++) {
     uint64_t x = r.below(100);
     if (profile >= 2) x = 0;
+    if (profile < 2 && P.arch != A_X86 && sr.chance(1, 6)) {
+      // ---- a label bound through CodeHolder::bind_label(label, section, offset) far beyond the end of the buffer: the
+      //      reference that follows is "bound before, same section" and lands next to the forward limit of its format
+      //      without any filler (x86-64: +2 GiB of rel32; AArch64: every format)
+      LimitScn s;
+      if (P.arch == A_A64) s = kLimA64[sr.below(sizeof kLimA64 / sizeof kLimA64[0])];
+      else { static const LimitScn xs[] = { { K_JMP, 0, F_REL32, 5, 5 }, { K_JMP, 2, F_REL32, 5, 5 }, { K_JCC, 0, F_REL32, 6, 6 }, { K_JCC, 2, F_REL32, 6, 6 }, { K_CALL, 0, F_REL32, 5, 5 }, { K_MEM, 0, F_REL32, 7, 7 }, { K_MEM, 0, F_REL32, 7, 7 } }; s = xs[sr.below(7)]; }
+      bool inside = clean || sr.chance(1, 2);
+      int64_t v = near_limit_value(sr, s.f, true, inside);
+      if (clean && s.f == F_REL32) v -= 16;            // the estimate of the instruction size may be off by a few bytes
+      int L = new_label();
+      int ri = push_ref(s.kind, L, s.opt, true);
+      Item bf; bf.t = I_BINDFAR; bf.label = L; bf.v = v + (P.arch == A_A64 ? 0 : s.est_x64) - int64_t(P.items[size_t(ri)].r.kind == K_MEM || P.items[size_t(ri)].r.kind == K_LDRLIT || P.items[size_t(ri)].r.kind == K_PRFM ? P.items[size_t(ri)].r.disp : 0);
+      bound[size_t(L)] = true;
+      P.items.insert(P.items.begin() + ri, bf);
+    }
     if (x < 32) {
       // ---- limit scenario
       const LimitScn* tab = P.arch == A_A64 ? kLimA64 : kLimX86;
@@ -532,6 +587,7 @@ static ProgSpec gen_c03(Rng& r, int profile) {
     push_bind(l);
   }
   if (r.chance(1, 2)) small_data(16);
+  if (!P.manual && profile < 2 && P.items.size() >= 4 && sr.chance(1, 3)) P.midpass = int(1 + sr.below(P.items.size() - 2));
   return P;
 }
 
@@ -546,8 +602,26 @@ struct RefM {
   int f = F_NONE; uint64_t fpos = 0; int fsize = 0; uint64_t anchor = 0; int trail = 0; bool has_reloc = false; bool uses_fixup = false;
   bool bound_at_emit = false, same_sec_at_emit = false; const uint8_t* buf_at_emit = nullptr; bool realloc_before_patch = false;
   bool delta_immediate = false; std::string form; bool reported = false;
+  bool base_bound_at_emit = false; int base_sec_at_emit = -1; uint64_t base_off_at_emit = 0; int label_sec_at_emit = -1;
+  bool resolved_mid = false; bool resolved_by_pass = false; int64_t res_delta = 0;   // resolved by a resolve pass: S[label section] - S[own section] at that time
+  bool after_mid = false; bool prefix_seen = false;
 };
-struct LabelM { bool created = false; Label lab; bool bound = false; int sec = -1; uint64_t off = 0; bool poisoned = false; std::vector<int> pending; };
+struct LabelM { bool created = false; Label lab; bool bound = false; int sec = -1; uint64_t off = 0; bool poisoned = false; std::vector<int> pending; int ltype = 0; bool far = false; };
+static const char* kLTypeName[] = { "plain", "named-global", "named-local", "named-anonymous" };
+
+// Length of the x86 branch instruction in the given form, -1 when the ISA / the requested option has no such form.
+static int x86_form_len(bool predicted, const RefSpec& s, int f) {
+  int pre = 0;
+  if (s.kind == K_JECXZ && !(s.var & 1)) pre++;
+  if (s.kind == K_JCC && s.hint && predicted) pre++;
+  if ((s.kind == K_JMP || s.kind == K_CALL) && s.rex) pre++;
+  bool has8 = s.kind == K_JMP || s.kind == K_JCC || s.kind == K_JECXZ || s.kind == K_LOOP;
+  bool has32 = s.kind == K_JMP || s.kind == K_JCC || s.kind == K_CALL || s.kind == K_XBEGIN;
+  if (s.opt == 1) has32 = false;
+  if (s.opt == 2) has8 = false;
+  if (f == F_REL8) return has8 ? pre + 2 : -1;
+  return has32 ? pre + ((s.kind == K_JCC || s.kind == K_XBEGIN) ? 6 : 5) : -1;
+}
 
 struct GuardBuf {
   uint8_t* base = nullptr; size_t size = 0; static constexpr size_t G = 64;
@@ -563,6 +637,8 @@ static std::string ref_form(int arch, const RefM& m) {
   if (m.s.kind == K_EMBED || m.s.kind == K_DELTA) s += fmt(".%d", m.fsize);
   else if (kind_is_x86(m.s.kind)) { s += "."; s += kFmtName[m.f]; }
   if (m.s.kind == K_LDRLIT) { static const char* v[] = { "w", "x", "sw", "s", "d", "q" }; s += "."; s += v[m.s.var % 6]; }
+  if (m.s.rex) s += "+rex";
+  if (m.s.hint && m.prefix_seen) s += m.s.hint == 1 ? "+taken" : "+not-taken";
   (void)arch;
   return s;
 }
@@ -579,6 +655,7 @@ struct C03Run {
   std::vector<int> item_ref;     // item index -> ref index
   int cursec = 0;
   bool count_tainted = false, tainted = false;
+  bool mid_done = false;
   size_t max_pending = 0;
   std::vector<uint64_t> S;       // final section offsets
 
@@ -601,11 +678,27 @@ struct C03Run {
   Label& label_of(int l) {
     if (labels.size() <= size_t(l)) labels.resize(size_t(l) + 1);
     LabelM& m = labels[size_t(l)];
-    if (!m.created) { m.lab = ba->new_label(); m.created = true; CNT["labels"]++; if (!m.lab.is_valid()) harness_fail("new_label failed"); }
+    if (!m.created) {
+      // one label in four has ExtraData of its own (named global / local with a parent / anonymous with a name): bind_label(),
+      // is_bound(), is_bound_to() and section_id() take another branch for those
+      Rng lr(P.lseed ^ (0xA24BAED4963EE407ull * uint64_t(l + 1)));
+      uint64_t h = lr.below(8);
+      std::string name = fmt("L%d_%llx", l, (ull)(P.lseed & 0xFFFF));
+      if (h == 0) { m.lab = ba->new_named_label(name.c_str(), SIZE_MAX, LabelType::kGlobal); m.ltype = 1; }
+      else if (h == 1 && l > 0) {
+        int parent = int(lr.below(uint64_t(l)));
+        uint32_t pid = label_of(parent).id();
+        m.lab = ba->new_named_label(name.c_str(), SIZE_MAX, LabelType::kLocal, pid); m.ltype = 2;
+      }
+      else if (h == 2) { m.lab = ba->new_anonymous_label(name.c_str()); m.ltype = 3; }
+      else m.lab = ba->new_label();
+      m.created = true; CNT["labels"]++; CNT[std::string("labels_") + kLTypeName[m.ltype]]++;
+      if (!m.lab.is_valid()) harness_fail(fmt("creating a %s label failed", kLTypeName[m.ltype]));
+    }
     return m.lab;
   }
 
-  int64_t addend_of(const RefM& m) const { return (m.s.kind == K_MEM || m.s.kind == K_LDRLIT) ? int64_t(m.s.disp) : 0; }
+  int64_t addend_of(const RefM& m) const { return (m.s.kind == K_MEM || m.s.kind == K_LDRLIT || m.s.kind == K_PRFM) ? int64_t(m.s.disp) : 0; }
 
   void filler(uint64_t n) {
     if (!n) return;
@@ -626,7 +719,10 @@ struct C03Run {
     if (fixup_kind && lm.bound && lm.sec != cursec && !P.allow_xsec_bound) { CNT["refs_skipped_xsec_bound_regime"]++; return; }
 
     RefM m; m.s = s; m.sec = cursec; m.pre = off();
-    m.bound_at_emit = lm.bound; m.same_sec_at_emit = lm.bound && lm.sec == cursec;
+    m.bound_at_emit = lm.bound; m.same_sec_at_emit = lm.bound && lm.sec == cursec; m.label_sec_at_emit = lm.bound ? lm.sec : -1;
+    m.after_mid = mid_done;
+    if (s.kind == K_DELTA) { const LabelM& bm0 = labels[size_t(s.base)]; m.base_bound_at_emit = bm0.bound; m.base_sec_at_emit = bm0.sec; m.base_off_at_emit = bm0.off; }
+    if (mid_done) CNT["refs_emitted_after_intermediate_pass"]++;
     m.buf_at_emit = ba->buffer_data();
     uint64_t lbl_off_before = lm.bound ? code.label_offset(L) : 0;
     m.err = P.arch == A_A64 ? emit_a64_ref(*aa, s, L, B) : emit_x86_ref(*xa, P.arch == A_X64, s, L, B);
@@ -647,8 +743,7 @@ struct C03Run {
       int want = s.size ? s.size : (P.arch == A_X86 ? 4 : 8);
       m.fpos = m.pre; m.fsize = want; m.anchor = m.pre;
       if (len != want) { viol(fmt("%s:%s:wrong-size", kArchName[P.arch], kKindName[s.kind]), fmt("%s of size %d appended %d bytes", kKindName[s.kind], want, len)); tainted = true; }
-      m.f = s.kind == K_DELTA ? F_DELTA : (want == 8 ? F_ABS64 : F_ABS32);
-      if (s.kind == K_EMBED && want != 4 && want != 8) m.f = F_ABS32;   // sizes 1/2 are not generated
+      m.f = s.kind == K_DELTA ? F_DELTA : (want == 8 ? F_ABS64 : F_ABS32);   // absolute field of `fsize` bytes (1/2/4: F_ABS32 class)
     }
     else if (P.arch == A_A64) {
       if (len != 4) { viol(fmt("a64:%s:not-4-bytes", kKindName[s.kind]), fmt("%s appended %d bytes", kKindName[s.kind], len)); tainted = true; refs.push_back(m); item_ref[size_t(item_index)] = int(refs.size()) - 1; return; }
@@ -679,7 +774,13 @@ struct C03Run {
             case K_CALL: opok = xl.map == 0 && op == 0xE8; break;
             case K_JECXZ: opok = xl.map == 0 && op == 0xE3; break;
             case K_LOOP: opok = xl.map == 0 && (op == 0xE2 || op == 0xE1 || op == 0xE0); break;
+            case K_XBEGIN: opok = xl.map == 0 && op == 0xC7 && xl.modrm == 0xF8 && xl.fsize == 4; break;
           }
+          if (s.kind != K_XBEGIN && xl.modrm == 0xF8 && op == 0xC7) opok = false;
+          if (s.kind == K_JCC && s.hint && (bytes[0] == 0x3E || bytes[0] == 0x2E)) {
+            m.prefix_seen = true;      // (which prefix, and whether one is emitted at all, is not this property's business)
+          }
+          if (s.rex && bytes[0] == 0x40) m.prefix_seen = true;
           if (!opok) { viol(fmt("%s:%s:wrong-opcode", kArchName[P.arch], kKindName[s.kind]), fmt("%s emitted %s", kKindName[s.kind], hexstr(bytes, size_t(len)).c_str())); tainted = true; }
         }
         m.f = xl.fsize == 1 ? F_REL8 : F_REL32;
@@ -749,10 +850,63 @@ struct C03Run {
     }
     if (lm.pending.size() >= 2) maxc("max_sections_with_pending_fixups_on_one_label", fromsecs.size());
     lm.pending.clear();
-    if (e == Error::kInvalidDisplacement) { CNT["bind_reported_invalid_displacement"]++; if (!expect_err) CNT["bind_error_not_predicted"]++; }
+    if (e == Error::kInvalidDisplacement) {
+      CNT["bind_reported_invalid_displacement"]++;
+      if (!expect_err && !tainted) { CNT["bind_error_not_predicted"]++; viol(fmt("bind:invalid-displacement-though-every-fixup-representable:%s", kArchName[P.arch]), fmt("bind() at section %d offset %llu returned InvalidDisplacement; by our evaluation each of the pending same-section references can hold its distance", cursec, (ull)o)); }
+    }
     else if (expect_err) CNT["bind_ok_though_fixup_unrepresentable(stays counted)"]++;
     if (code.label_offset(L) != o || !code.is_label_bound(L)) { viol("bind:label-offset-wrong", fmt("label_offset()=%llu after bind at %llu", (ull)code.label_offset(L), (ull)o)); tainted = true; }
     check_count("bind");
+  }
+
+  // bind through CodeHolder::bind_label(label, section id, offset) at a position beyond the end of the buffer
+  void do_bind_far(int l, int64_t delta) {
+    Label L = label_of(l);
+    LabelM& lm = labels[size_t(l)];
+    if (lm.bound || !lm.pending.empty() || delta <= 0) return;
+    uint64_t o = off() + uint64_t(delta);
+    Error e = code.bind_label(L, secs[size_t(cursec)]->section_id(), o);
+    CNT["binds_far_beyond_buffer"]++;
+    if (e != Error::kOk) { viol(fmt("bind_label:error:%s", errname(e)), fmt("CodeHolder::bind_label(unbound label without references, section %d, offset 0x%llx) failed: %s", cursec, (ull)o, errname(e))); tainted = true; count_tainted = true; return; }
+    lm.bound = true; lm.sec = cursec; lm.off = o; lm.far = true;
+    if (code.label_offset(L) != o || !code.is_label_bound(L)) { viol("bind:label-offset-wrong", fmt("label_offset()=%llu after bind_label(.., %llu)", (ull)code.label_offset(L), (ull)o)); tainted = true; }
+    check_count("bind_label");
+  }
+
+  // what resolve_cross_section_fixups() has to do to our model, given the section offsets of the moment
+  size_t model_resolve(const std::vector<uint64_t>& So, bool mid) {
+    size_t n = 0;
+    for (RefM& m : refs) {
+      if (m.state != ST_CROSS) continue;
+      const LabelM& lm = labels[size_t(m.s.label)];
+      if (!lm.bound || lm.poisoned) continue;
+      int64_t v = int64_t(So[size_t(lm.sec)] + lm.off) + addend_of(m) - int64_t(So[size_t(m.sec)] + m.anchor);
+      if (fits(m.f, v)) { m.state = ST_RESOLVED; m.resolved_by_pass = true; m.resolved_mid = mid; m.res_delta = int64_t(So[size_t(lm.sec)]) - int64_t(So[size_t(m.sec)]); n++; }
+      else if (!mid) m.reported = true;
+    }
+    return n;
+  }
+
+  // flatten() + resolve_cross_section_fixups() in the middle of the program (what a user does to size the code before
+  // JitRuntime::add runs both again). Afterwards only the section laid out last receives code, so no offset moves.
+  void do_midpass() {
+    Section* last = code.sections_by_order()[code.section_count() - 1];
+    int li = -1;
+    for (size_t i = 0; i < secs.size(); i++) if (secs[i] == last) li = int(i);
+    if (li < 0) harness_fail("last section not found");
+    if (secs.size() > 1 && last->buffer_size() == 0) { CNT["intermediate_pass_skipped_last_section_empty"]++; return; }   // an empty section gets aligned (moves) with its first byte
+    Error e = code.flatten();
+    if (e != Error::kOk) { viol(fmt("flatten:error:%s", errname(e)), "intermediate flatten() failed on a small program"); tainted = true; return; }
+    std::vector<uint64_t> Sm(secs.size());
+    for (size_t i = 0; i < secs.size(); i++) Sm[i] = secs[i]->offset();
+    Error re = code.resolve_cross_section_fixups();
+    if (re != Error::kOk) CNT[std::string("resolve_error_") + errname(re)]++;
+    size_t n = model_resolve(Sm, true);
+    mid_done = true;
+    CNT["intermediate_pass_programs"]++; CNT["intermediate_pass_refs_resolved"] += n;
+    if (model_count()) CNT["intermediate_pass_programs_with_fixups_left_over"]++;
+    check_count("resolve_cross_section_fixups:intermediate");
+    if (li != cursec) { if (ba->section(last) != Error::kOk) harness_fail("section()"); cursec = li; }
   }
 
   // ---- own layout of the sections (order, then creation index; aligned only when non-empty)
@@ -811,6 +965,17 @@ struct C03Run {
     for (size_t k = 0; k < secs.size(); k++) secs[k]->set_offset(S[k]);
   }
 
+  void note_verified(const RefM& m, const LabelM& lm) {
+    if (lm.ltype) { CNT["refs_verified_on_named_labels"]++; CNT[std::string("refs_verified_on_") + kLTypeName[lm.ltype] + "_labels"]++; }
+    if (m.s.rex && m.prefix_seen) CNT["refs_verified_with_forced_rex"]++;
+    if (m.s.hint && m.prefix_seen) CNT["refs_verified_with_branch_hint_prefix"]++;
+    if (m.s.kind == K_XBEGIN || m.s.kind == K_BC || m.s.kind == K_PRFM) CNT[std::string("refs_verified_") + kKindName[m.s.kind]]++;
+    if (m.s.kind == K_MEM && (m.s.disp <= INT32_MIN + 16 || m.s.disp >= INT32_MAX - 16)) CNT["refs_verified_addend_at_int32_end"]++;
+    if (m.s.kind == K_EMBED && m.fsize < 4) CNT["refs_verified_embed_label_1_or_2_bytes"]++;
+    if (m.after_mid) CNT["refs_verified_emitted_after_intermediate_pass"]++;
+    if (m.resolved_mid) CNT["refs_verified_resolved_by_intermediate_pass"]++;
+  }
+
   void run();
   void final_checks(Rng& r);
 };
@@ -829,6 +994,7 @@ void C03Run::run() {
     secs.push_back(s);
   }
   if (P.arch == A_A64) { aa.reset(new a64::Assembler(&code)); ba = aa.get(); } else { xa.reset(new x86::Assembler(&code)); ba = xa.get(); }
+  if (P.predicted && P.arch != A_A64) { ba->add_encoding_options(EncodingOptions::kPredictedJumps); CNT["programs_with_predicted_jumps_option"]++; }
   item_ref.assign(P.items.size(), -1);
   labels.resize(size_t(P.nlabels));
 
@@ -836,10 +1002,11 @@ void C03Run::run() {
     const Item& it = P.items[ii];
     switch (it.t) {
       case I_REF: do_ref(it, int(ii)); break;
-      case I_BIND: do_bind(it.label); break;
+      case I_BIND: do_bind(it.label); if (mid_done) CNT["binds_after_intermediate_pass"]++; break;
+      case I_BINDFAR: do_bind_far(it.label, it.v); break;
       case I_ALIGN: { Error e = ba->align(AlignMode(it.amode), it.aval); CNT["aligns"]++; if (e != Error::kOk) CNT["align_errors"]++; break; }
       case I_DATA: filler(it.n); break;
-      case I_SECTION: { if (size_t(it.sec) < secs.size()) { if (ba->section(secs[size_t(it.sec)]) != Error::kOk) harness_fail("section()"); cursec = it.sec; CNT["section_switches"]++; } break; }
+      case I_SECTION: { if (size_t(it.sec) < secs.size() && !mid_done) { if (ba->section(secs[size_t(it.sec)]) != Error::kOk) harness_fail("section()"); cursec = it.sec; CNT["section_switches"]++; } break; }
       case I_PADFWD: {
         int ri = it.refitem >= 0 ? item_ref[size_t(it.refitem)] : -1;
         if (ri < 0) break;
@@ -858,6 +1025,7 @@ void C03Run::run() {
       }
     }
     if (ii % 8 == 7) check_count("item");
+    if (int(ii) == P.midpass && !tainted) do_midpass();
   }
   maxc("max_pending_fixups_on_one_label", max_pending);
   final_checks(r);
@@ -880,14 +1048,30 @@ void C03Run::final_checks(Rng& r) {
   // ---- cross-section resolution
   Error re = code.resolve_cross_section_fixups();
   if (re != Error::kOk) CNT[std::string("resolve_error_") + errname(re)]++;
-  for (RefM& m : refs) {
-    if (m.state != ST_CROSS) continue;
-    const LabelM& lm = labels[size_t(m.s.label)];
-    if (!lm.bound || lm.poisoned) continue;
-    int64_t v = int64_t(S[size_t(lm.sec)] + lm.off) + addend_of(m) - int64_t(S[size_t(m.sec)] + m.anchor);
-    if (fits(m.f, v)) m.state = ST_RESOLVED; else m.reported = true;
-  }
+  model_resolve(S, false);
   check_count("resolve_cross_section_fixups");
+  if (P.resolve_again && !tainted) {
+    // the same layout and resolution once more (JitRuntime::add does this after the user sized the code): nothing may
+    // change - what is left stays counted, what was resolved is not resolved (or counted) a second time
+    if (!P.manual) {
+      Error e2 = code.flatten();
+      if (e2 != Error::kOk) viol(fmt("flatten:error:%s", errname(e2)), "second flatten() failed");
+      for (size_t i = 0; i < secs.size(); i++) if (secs[i]->offset() != S[i]) {
+        // (an EMPTY section can move by the alignment padding of its successor: the first pass extended the virtual size of
+        //  its predecessor. The layout of empty sections is C10's subject; references resolved with the earlier offset are
+        //  judged against that offset below, or not at all.)
+        if (secs[i]->buffer_size()) { viol("flatten:second-pass-moved-a-nonempty-section", fmt("section %zu offset %llu -> %llu without any change in between", i, (ull)S[i], (ull)secs[i]->offset())); tainted = true; }
+        else CNT["second_flatten_moved_an_empty_section"]++;
+        S[i] = secs[i]->offset();
+      }
+    }
+    Error re2 = code.resolve_cross_section_fixups();
+    model_resolve(S, false);
+    if (re2 != re) CNT["resolve_again_other_result"]++;
+    CNT["resolve_again_programs"]++;
+    if (model_count()) CNT["resolve_again_programs_with_fixups_left_over"]++;
+    check_count("resolve_cross_section_fixups:again");
+  }
   size_t remaining = model_count();
   CNT[remaining ? "programs_with_unresolved_left" : "programs_fully_resolved"]++;
   if (!count_tainted) {
@@ -914,7 +1098,7 @@ void C03Run::final_checks(Rng& r) {
       if (!lm.bound) { expect_reloc_fail = true; why = "absolute reference to a label that was never bound"; continue; }
       if (lm.poisoned) continue;
       uint64_t v = P.base + abs_label(lm) + uint64_t(addend_of(m));
-      if (m.fsize == 4 && v > 0xFFFFFFFFull) { expect_reloc_fail = true; m.reported = true; why = fmt("absolute value 0x%llx does not fit 4 bytes", (ull)v); }
+      if (m.fsize < 8 && (v >> (8 * m.fsize))) { expect_reloc_fail = true; m.reported = true; why = fmt("absolute value 0x%llx does not fit %d bytes", (ull)v, m.fsize); }
     }
   }
   CodeHolder::RelocationSummary sum;
@@ -949,16 +1133,63 @@ void C03Run::final_checks(Rng& r) {
     bool xsec = lm.bound && lm.sec != m.sec;
     std::string cls_base = std::string(an) + ":" + (m.form.empty() ? std::string(kKindName[m.s.kind]) : m.form);
     if (m.state == ST_ERR) {
-      // reported at emit time; classify as "outside" when our estimate says it cannot be represented in the requested form
+      // reported at emit time. Either the requested form really cannot hold the distance (that is "reported", fine), or the
+      // form does not exist (short call, long jecxz/loop), or - nothing else is a reason - a representable reference was refused.
       CNT["refs_reported_at_emit"]++;
-      if (lm.bound && lm.sec == m.sec && m.s.kind != K_EMBED && m.s.kind != K_DELTA) {
-        int f = F_NONE; int64_t v = 0;
-        if (P.arch == A_A64) { f = a64_fmt_of_class(a64_expected_class(m.s.kind)); v = int64_t(lm.off) + addend_of(m) - int64_t(m.pre); }
-        else if (m.s.kind != K_MEM) { f = F_REL8; int sz = (m.s.kind == K_JECXZ && !(m.s.var & 1)) ? 3 : 2; v = int64_t(lm.off) - int64_t(m.pre + uint64_t(sz)); }
-        if (f != F_NONE && !fits(f, v)) { g_classes.insert(cls_base + "." + kFmtName[f] + ":" + (v < 0 ? "bwd" : "fwd") + ":same:outside-reported-at-emit"); CNT["refs_unrepresentable_reported_at_emit"]++; }
-        else { CNT["refs_rejected_at_emit_other"]++; if (g_verbose) fprintf(stderr, "program %llu: %s %s opt=%d var=%d rejected at emit (%s), label bound same section, est. displacement %lld\n", (ull)g_prog, an, kKindName[m.s.kind], m.s.opt, m.s.var, errname(m.err), (sll)v); }
+      const bool same_at_emit = m.bound_at_emit && m.same_sec_at_emit;
+      enum { J_OUTSIDE, J_NOFORM, J_DESIGN, J_AMBIGUOUS, J_REFUSED } j = J_REFUSED;
+      int f = F_NONE; int64_t v = 0; std::string fname;
+      if (m.s.kind == K_EMBED) { fname = fmt("%d", m.s.size); }
+      else if (m.s.kind == K_DELTA) {
+        int fsz = m.s.size ? m.s.size : (P.arch == A_X86 ? 4 : 8); fname = fmt("%d", fsz);
+        if (m.bound_at_emit && m.base_bound_at_emit && m.label_sec_at_emit == m.base_sec_at_emit) {
+          v = int64_t(lm.off - m.base_off_at_emit); int bits = fsz * 8;
+          if (bits < 64 && (v < -(1ll << (bits - 1)) || v > (1ll << (bits - 1)) - 1)) j = J_OUTSIDE;
+        }
       }
-      else { CNT["refs_rejected_at_emit_other"]++; if (g_verbose) fprintf(stderr, "program %llu: %s %s opt=%d var=%d size=%d rejected at emit (%s), label bound=%d\n", (ull)g_prog, an, kKindName[m.s.kind], m.s.opt, m.s.var, m.s.size, errname(m.err), int(lm.bound)); }
+      else if (P.arch == A_A64) {
+        f = a64_fmt_of_class(a64_expected_class(m.s.kind)); fname = kFmtName[f];
+        if (same_at_emit) { v = int64_t(lm.off) + addend_of(m) - int64_t(m.pre); if (!fits(f, v)) j = J_OUTSIDE; }
+      }
+      else if (m.s.kind == K_MEM) {
+        fname = P.arch == A_X64 ? "rel32" : "abs32"; f = P.arch == A_X64 ? F_REL32 : F_ABS32;
+        if (P.arch == A_X64) {
+          int64_t adj = int64_t(m.s.disp) - 4 - kMemVars[m.s.var].trail;
+          if (adj < INT32_MIN || adj > INT32_MAX) j = J_DESIGN;      // the addend minus the bytes that follow the field must fit the fixup's int32 (documented at the site)
+          else if (same_at_emit) {
+            // the instruction was not emitted, its length (5..15 bytes) is not known exactly
+            int64_t v5 = int64_t(lm.off) + m.s.disp - int64_t(m.pre + 5), v15 = int64_t(lm.off) + m.s.disp - int64_t(m.pre + 15);
+            v = v5;
+            if (!fits(F_REL32, v5) && !fits(F_REL32, v15)) j = J_OUTSIDE; else if (!fits(F_REL32, v5) || !fits(F_REL32, v15)) j = J_AMBIGUOUS;
+          }
+        }
+      }
+      else {
+        int l8 = x86_form_len(P.predicted, m.s, F_REL8), l32 = x86_form_len(P.predicted, m.s, F_REL32);
+        fname = l8 >= 0 && l32 >= 0 ? "rel8|rel32" : l8 >= 0 ? "rel8" : l32 >= 0 ? "rel32" : "none"; f = l8 >= 0 && l32 < 0 ? F_REL8 : F_REL32;
+        if (l8 < 0 && l32 < 0) j = J_NOFORM;
+        else if (same_at_emit) {
+          int64_t v8 = int64_t(lm.off) - int64_t(m.pre + uint64_t(l8 < 0 ? 0 : l8)), v32 = int64_t(lm.off) - int64_t(m.pre + uint64_t(l32 < 0 ? 0 : l32));
+          v = l8 >= 0 && l32 < 0 ? v8 : v32;
+          if (!((l8 >= 0 && fits(F_REL8, v8)) || (l32 >= 0 && fits(F_REL32, v32)))) j = J_OUTSIDE;
+        }
+      }
+      switch (j) {
+        case J_OUTSIDE:
+          g_classes.insert(cls_base + "." + fname + ":" + (v < 0 ? "bwd" : "fwd") + ":same:outside-reported-at-emit"); CNT["refs_unrepresentable_reported_at_emit"]++;
+          if (lm.far) CNT["far_bound_label_refs_outside_reported_at_emit"]++;
+          break;
+        case J_NOFORM: CNT["refs_rejected_at_emit_form_does_not_exist"]++; g_classes.insert(cls_base + (m.s.opt == 1 ? ".short" : ".long") + ":form-does-not-exist:reported-at-emit"); break;
+        case J_DESIGN: CNT["refs_rejected_at_emit_addend_adjustment_overflows_int32"]++; g_classes.insert(cls_base + ":addend-at-int32-end:reported-at-emit"); break;
+        case J_AMBIGUOUS: CNT["refs_rejected_at_emit_not_judged_length_unknown"]++; break;
+        case J_REFUSED:
+          viol(fmt("representable-rejected-at-emit:%s:%s:%s:%s", an, kKindName[m.s.kind], fname.c_str(), same_at_emit ? "bound-before" : m.bound_at_emit ? "bound-in-other-section" : "unbound"),
+               fmt("%s %s (opt=%d var=%d size=%d addend=%lld%s%s) at section %d offset %llu was refused with %s; the label was %s at that time%s - the form can hold that",
+                   an, kKindName[m.s.kind], m.s.opt, m.s.var, m.s.size, (sll)addend_of(m), m.s.rex ? " rex" : "", m.s.hint ? " hint" : "", m.sec, (ull)m.pre, errname(m.err),
+                   same_at_emit ? "bound in the same section" : m.bound_at_emit ? "bound in another section" : "not bound", same_at_emit ? fmt(" at offset %llu (distance about %lld)", (ull)lm.off, (sll)v).c_str() : ""));
+          break;
+      }
+      CNT["refs_rejected_at_emit_judged"]++;
       continue;
     }
     if (m.state == ST_PENDING) { CNT["refs_left_pending_label_never_bound"]++; g_classes.insert(cls_base + ":never-bound:counted-unresolved"); continue; }
@@ -994,19 +1225,25 @@ void C03Run::final_checks(Rng& r) {
       continue;
     }
     if (m.has_reloc) {
-      if (!reloc_ok) { CNT["refs_not_judged_relocation_failed"]++; if (m.reported) g_classes.insert(cls_base + ":abs:outside-reported-by-relocate"); continue; }
+      if (!reloc_ok) { CNT["refs_not_judged_relocation_failed"]++; if (m.reported) { g_classes.insert(cls_base + ":abs:outside-reported-by-relocate"); if (m.s.kind == K_EMBED && m.fsize < 4) CNT["refs_embed_label_1_or_2_bytes_reported_by_relocate"]++; if (m.s.kind == K_MEM && (m.s.disp <= INT32_MIN + 16 || m.s.disp >= INT32_MAX - 16)) CNT["refs_addend_at_int32_end_reported_by_relocate"]++; } continue; }
       uint64_t v = P.base + abs_label(lm) + uint64_t(addend_of(m));
       uint64_t got = rd(fp, m.fsize);
-      bool ok = m.fsize == 8 ? got == v : (v <= 0xFFFFFFFFull ? got == v : false);
+      bool ok = m.fsize == 8 ? got == v : (!(v >> (8 * m.fsize)) ? got == v : false);
       if (!ok) viol(fmt("%s:%s:absolute-field-wrong", an, kKindName[m.s.kind]), fmt("%s %s: %d-byte field holds 0x%llx, base 0x%llx + section offset %llu + label offset %llu + addend %lld = 0x%llx (label bound %s the reference, %s section)",
                      an, m.form.c_str(), m.fsize, (ull)got, (ull)P.base, (ull)S[size_t(lm.sec)], (ull)lm.off, (sll)addend_of(m), (ull)v, m.bound_at_emit ? "before" : "after", xsec ? "other" : "same"));
-      else { CNT["refs_verified"]++; g_classes.insert(cls_base + ":" + (m.bound_at_emit ? "bound-before" : "bound-after") + ":" + (xsec ? "other" : "same") + ":inside"); }
+      else { CNT["refs_verified"]++; note_verified(m, lm); g_classes.insert(cls_base + ":" + (m.bound_at_emit ? "bound-before" : "bound-after") + ":" + (xsec ? "other" : "same") + ":inside"); }
       if (ok && g_decode.size() < g_decode_cap && P.arch == A_X86 && m.s.kind == K_MEM && r.chance(1, 3))
         g_decode.push_back(fmt("{\"arch\":\"x86\",\"what\":\"abs\",\"form\":%s,\"bytes\":\"%s\",\"expect\":\"%llu\"}", jstr(m.form).c_str(), hexstr(bytes_at(m.sec, m.pre), size_t(m.post - m.pre)).c_str(), (ull)v));
       continue;
     }
     // pc-relative formats
     int64_t want = int64_t(S[size_t(lm.sec)] + lm.off) + addend_of(m) - int64_t(S[size_t(m.sec)] + m.anchor);
+    if (m.resolved_by_pass) {
+      // patched by a resolve pass with the section offsets of that time (they must not have moved since: after the
+      // intermediate pass only the last section grew)
+      if (int64_t(S[size_t(lm.sec)]) - int64_t(S[size_t(m.sec)]) != m.res_delta) { CNT["refs_not_judged_layout_moved_after_resolve_pass"]++; continue; }
+      if (m.resolved_mid) CNT["intermediate_pass_refs_judged"]++;
+    }
     int64_t got;
     if (P.arch == A_A64) got = a64_disp(uint32_t(rd(fp, 4)), m.f);
     else got = sx(rd(fp, m.fsize), m.fsize * 8);
@@ -1022,9 +1259,10 @@ void C03Run::final_checks(Rng& r) {
                an, m.form.c_str(), m.sec, (ull)m.pre, (ull)m.post, hexstr(bytes_at(m.sec, m.pre), size_t(std::min<uint64_t>(m.post - m.pre, 16))).c_str(), (sll)got, lm.sec, (ull)lm.off, (sll)addend_of(m), (sll)want, m.trail));
       continue;
     }
-    CNT["refs_verified"]++;
+    CNT["refs_verified"]++; note_verified(m, lm);
     int64_t lo, hi, unit; fmt_limits(m.f, lo, hi, unit);
     bool near = (hi - want <= 64 * unit) || (want - lo <= 64 * unit);
+    if (lm.far && m.state == ST_DIRECT) { CNT["far_bound_label_refs_verified"]++; if (near) CNT["far_bound_label_refs_verified_near_limit"]++; }
     if (near) CNT["near_limit_inside"]++;
     if (m.realloc_before_patch) CNT["refs_verified_patched_after_buffer_moved"]++;
     g_classes.insert(cls_base + ":" + (want < 0 ? "bwd" : "fwd") + ":" + (xsec ? "other" : "same") + ":inside" + (m.state == ST_DIRECT ? ":bound-before" : ":bound-after"));
@@ -1172,7 +1410,11 @@ static void run_exec(Rng& r) {
         else if (k == T_JCC_SHORT) { a.cmp(eax, eax); e = a.short_().j(x86::CondCode(ccT[r.below(8)]), T); }
         else if (k == T_JECXZ) { a.xor_(ecx, ecx); e = r.chance(1, 2) ? a.jecxz(ecx, T) : a.jecxz(rcx, T); }
         else { a.mov(ecx, Imm(2)); e = a.loop(T); }
-        if (e != Error::kOk) { CNT["exec_short_form_rejected_at_emit"]++; must(a.jmp(T), "jmp"); }
+        if (e != Error::kOk) {
+          // short forms are only chosen for a bound target less than 90 bytes back or for an unbound one (fixup): no reason to refuse
+          CNT["exec_short_form_rejected_at_emit"]++; any_err = true;
+          viol(fmt("exec:short-form-rejected-at-emit:%s", kTName[k]), fmt("%s to a label %s was refused: %s", kTName[k], tb ? fmt("bound %llu bytes back", (ull)(uint64_t(a.offset()) - code.label_offset(T))).c_str() : "not yet bound", errname(e)));
+        }
         else { if (!tb) short_unbound_risk = true; a.ud2(); }
         break;
       }
@@ -1301,8 +1543,14 @@ enum AItemT { AI_REF, AI_BIND, AI_DATA, AI_SECTION, AI_ALIGN };
 struct AItem {
   int t = AI_DATA; int kind = 0; int label = 0, base = 0; int size = 0; int32_t disp = 0; int var = 0; int reg = 0; int cc = 0; int bit = 0;
   int tclass = TC_NEAR; int64_t toff = 0; uint64_t tabs = 0; int addrtype = 0; bool seg = false; bool store = false; uint64_t n = 0; int sec = 0; uint32_t aval = 0;
+  bool idx = false; int shift = 0;    // mem[abs]: [abs + index << shift]
+  bool ripform = false;               // x86-32[label] replaced by [rip + disp] assembled for 32-bit mode (relocated to an absolute address)
+  int modopt = 0;                     // mov acc,[abs]: 1 = mod_rm(), 2 = mod_mr() (no moffs form)
+  bool after = false;                 // emitted into the section ordered behind .addrtab
 };
 struct ASpec { int arch = A_X64; std::vector<SecSpec> secs; int nlabels = 0; std::vector<AItem> items; int extra = 0; /*0 none, 1 table pre-created + later section, 2 section added at the end*/
+               int after_label = -1; /* bound in the section ordered behind .addrtab */ bool predicted = false;
+               bool small_fields = false; /* 1- and 2-byte embed_label, bases 0 / 0x100 / 0x1000 in front of the base list */
                int late = 0; /* n > 0: after a first flatten() the first n reference items are emitted once more into the section that
                                 is laid out last - at emit time the section offset is then known and non-zero */ };
 
@@ -1323,6 +1571,7 @@ static const int kA64ImmKinds[] = { K_B, K_BL, K_BCOND, K_CBZ, K_CBNZ, K_TBZ, K_
 
 static ASpec gen_c04(Rng& r) {
   ASpec P;
+  Rng sr(r.s ^ 0xC04D1A5EED5ull);     // side stream for the dimensions added later: the main stream draws exactly as before
   { uint64_t x = r.below(100); P.arch = x < 45 ? A_X64 : x < 72 ? A_X86 : A_A64; }
   int nsec = int(1 + r.below(3));
   P.secs.resize(size_t(nsec));
@@ -1333,9 +1582,20 @@ static ASpec gen_c04(Rng& r) {
   std::vector<bool> bound; bound.assign(size_t(P.nlabels), false);
   bool allow_risky = r.chance(1, 6); int risky_left = 1;
   int n = int(6 + r.below(26));
-  auto absval = [&](int tc) -> uint64_t {
-    switch (tc) { case TC_LOW: return 0x1000 + r.below(0x7FFF0000ull); case TC_U32: return 0x80000000ull + r.below(0x7FFFF000ull);
-                  default: { uint64_t v = r.next(); if (r.chance(1, 2)) v &= 0x00007FFFFFFFFFFFull; if (v < 0x100000000ull) v += 0x100000000ull; return v; } }
+  auto absval_of = [](Rng& g, int tc) -> uint64_t {
+    switch (tc) { case TC_LOW: return 0x1000 + g.below(0x7FFF0000ull); case TC_U32: return 0x80000000ull + g.below(0x7FFFF000ull);
+                  default: { uint64_t v = g.next(); if (g.chance(1, 2)) v &= 0x00007FFFFFFFFFFFull; if (v < 0x100000000ull) v += 0x100000000ull; return v; } }
+  };
+  auto absval = [&](int tc) -> uint64_t { return absval_of(r, tc); };
+  auto side_target = [&](AItem& it) {    // a target of any class, drawn from the side stream
+    uint64_t z = sr.below(100);
+    it.tclass = z < 25 ? TC_NEAR : z < 35 ? TC_EDGE_HI : z < 45 ? TC_EDGE_LO : z < 60 ? TC_FAR_REL : z < 70 ? TC_LOW : z < 80 ? TC_U32 : TC_ABS64;
+    switch (it.tclass) {
+      case TC_NEAR: it.toff = int64_t(sr.below(1u << 30)) - (1 << 29); if (sr.chance(1, 3)) it.toff = int64_t(sr.below(400)) - 150; break;
+      case TC_EDGE_HI: case TC_EDGE_LO: it.toff = int64_t(sr.below(16384)) - 8192; if (sr.chance(1, 3)) it.toff = int64_t(sr.below(64)) - 32; break;
+      case TC_FAR_REL: it.toff = (sr.chance(1, 2) ? 1 : -1) * int64_t((1ull << (32 + sr.below(14))) + sr.below(1u << 20)); break;
+      default: it.tabs = absval_of(sr, it.tclass); break;
+    }
   };
   for (int i = 0; i < n; i++) {
     AItem it; uint64_t x = r.below(100);
@@ -1401,6 +1661,49 @@ static ASpec gen_c04(Rng& r) {
     AItem it; it.t = AI_BIND; it.label = l; P.items.push_back(it);
   }
   { AItem it; it.t = AI_DATA; it.n = 4 + 4 * r.below(4); P.items.push_back(it); }
+  // ---- dimensions drawn from the side stream
+  P.predicted = sr.chance(3, 4);
+  P.small_fields = sr.chance(1, 10);
+  for (AItem& it : P.items) {
+    if (it.t != AI_REF) continue;
+    switch (it.kind) {
+      case AK_MEMABS:
+        if (sr.chance(1, 4)) {
+          it.idx = true; it.shift = int(sr.below(4)); it.addrtype = sr.chance(1, 4) ? 1 : 0; it.seg = false;
+          uint64_t z = sr.below(100);
+          if (z < 75) { it.tclass = z < 35 ? TC_LOW : z < 55 ? TC_U32 : TC_ABS64; it.tabs = absval_of(sr, it.tclass); if (it.tclass == TC_ABS64 && sr.chance(1, 3)) it.tabs |= 0xFFFFFFFF80000000ull; }
+        }
+        break;
+      case AK_EMBED: if (sr.chance(1, P.small_fields ? 2 : 60)) it.size = sr.chance(1, 3) ? 1 : 2; break;
+      case AK_MEM32: if (sr.chance(1, 8)) it.ripform = true; break;
+      case AK_MOVABS: if (sr.chance(1, 6)) it.modopt = int(1 + sr.below(2)); break;
+      case AK_JCCIMM: if (it.tclass == TC_NEAR && sr.chance(1, 5)) it.toff = (sr.chance(1, 2) ? 1 : -1) * int64_t((1ull << 30) + sr.below((1ull << 30) - (1ull << 16))); break;   // upper half of the rel32 range
+      default: break;
+    }
+  }
+  if (P.extra != 0 && sr.chance(3, 4)) {
+    // references that live behind the address table: a label bound there, 1-3 reference sites there, and (sometimes) an
+    // earlier embed_label that designates the label bound there
+    P.after_label = P.nlabels++;
+    if (sr.chance(1, 2)) for (AItem& it : P.items) if (it.t == AI_REF && it.kind == AK_EMBED) { it.label = P.after_label; break; }
+    int na = int(1 + sr.below(3));
+    for (int i = 0; i < na; i++) {
+      AItem it; it.t = AI_REF; it.after = true;
+      it.reg = int(sr.below(1024)); it.cc = int(sr.below(16)); it.bit = int(sr.below(64)); it.var = int(sr.below(64));
+      it.label = sr.chance(1, 2) ? P.after_label : int(sr.below(uint64_t(P.nlabels))); it.base = int(sr.below(uint64_t(P.nlabels)));
+      uint64_t y = sr.below(100);
+      if (P.arch == A_A64) it.kind = y < 60 ? AK_EMBED : AK_DELTA;
+      else it.kind = y < 35 ? AK_CALLIMM : y < 60 ? AK_JMPIMM : y < 85 ? AK_EMBED : P.arch == A_X86 ? AK_MEM32 : AK_DELTA;
+      switch (it.kind) {
+        case AK_CALLIMM: case AK_JMPIMM: side_target(it); break;
+        case AK_EMBED: it.size = P.arch == A_X86 ? (sr.chance(1, 4) ? 0 : 4) : (sr.chance(1, 3) ? 0 : sr.chance(1, 8) ? 4 : 8); break;
+        case AK_DELTA: { static const int sz[] = { 2, 4, 8, 0, 4, 8 }; it.size = sz[sr.below(6)]; break; }
+        case AK_MEM32: { int tries = 0; do { it.var = int(sr.below(uint64_t(kNumMemVars))); } while (!(kMemVars[it.var].archmask & 2) && ++tries < 100); it.disp = int32_t(sr.below(64)) - 16; break; }
+        default: break;
+      }
+      P.items.push_back(it);
+    }
+  }
   return P;
 }
 
@@ -1410,6 +1713,7 @@ struct AResult {
   std::vector<int> lsec; std::vector<uint64_t> loff; std::vector<uint8_t> image; uint64_t size_before = 0, size_after = 0, reduction = 0;
   int addrtab_sec = -1; uint64_t addrtab_off = 0, addrtab_size = 0, addrtab_vsize_before = 0; bool addrtab_last = true; bool has_addrtab = false;
   std::vector<int> verdict; std::vector<uint64_t> designated; bool reloc_fail_justified = false; std::string fail_reason; std::string secdump;
+  std::vector<std::string> forms; std::vector<int> ffmt;   // per reference: the form that came out and the Fmt of its field (F_NONE when it has no pc-relative field)
 };
 enum { V_NONE = 0, V_OK, V_EMIT_ERR, V_WRONG, V_NOT_JUDGED };
 
@@ -1437,9 +1741,14 @@ static Error emit_c04_ref(BaseAssembler* ba, int arch, const AItem& it, uint64_t
   switch (it.kind) {
     case AK_EMBED: return a.embed_label(labs[size_t(it.label)], size_t(it.size));
     case AK_DELTA: return a.embed_label_delta(labs[size_t(it.label)], labs[size_t(it.base)], size_t(it.size));
-    case AK_MEM32: { RefSpec rs; rs.var = it.var; rs.reg = it.reg; return emit_x86_mem(a, false, rs, x86::ptr(labs[size_t(it.label)], it.disp)); }
+    case AK_MEM32: { RefSpec rs; rs.var = it.var; rs.reg = it.reg; return emit_x86_mem(a, false, rs, it.ripform ? x86::ptr(x86::rip, it.disp) : x86::ptr(labs[size_t(it.label)], it.disp)); }
     case AK_MEMABS: {
       x86::Mem m = it.addrtype == 1 ? x86::ptr_abs(target) : it.addrtype == 2 ? x86::ptr_rel(target) : x86::ptr(target);
+      if (it.idx) {
+        static const int ids[] = { 1, 2, 3, 6, 7, 9, 12, 13 };
+        x86::Gp ix = (it.reg & 3) == 0 ? x86::gpd(uint32_t(ids[(it.reg >> 2) & 7])) : x86::gpq(uint32_t(ids[(it.reg >> 2) & 7]));   // 32-bit index: 67h, the address wraps at 2^32
+        m = it.addrtype == 1 ? x86::ptr_abs(target, ix, uint32_t(it.shift)) : x86::ptr(target, ix, uint32_t(it.shift));
+      }
       if (it.seg) m.set_segment(it.reg & 1 ? x86::fs : x86::gs);
       RefSpec rs; rs.var = it.var; rs.reg = it.reg; return emit_x86_mem(a, is64, rs, m);
     }
@@ -1447,12 +1756,16 @@ static Error emit_c04_ref(BaseAssembler* ba, int arch, const AItem& it, uint64_t
       x86::Mem m = it.addrtype == 1 ? x86::ptr_abs(target) : it.addrtype == 2 ? x86::ptr_rel(target) : x86::ptr(target);
       m.set_size(uint32_t(it.size));
       x86::Gp acc = it.size == 1 ? x86::al : it.size == 2 ? x86::ax : it.size == 4 ? x86::eax : x86::rax;
+      if (it.modopt == 1) a.mod_rm(); else if (it.modopt == 2) a.mod_mr();
       return it.store ? a.mov(m, acc) : a.mov(acc, m);
     }
-    case AK_JMPIMM: return a.jmp(Imm(target));
-    case AK_CALLIMM: return a.call(Imm(target));
-    case AK_JCCIMM: return a.j(x86::CondCode(it.cc & 15), Imm(target));
-    case AK_JECXZIMM: return (it.var & 1) ? a.jecxz(is64 ? x86::rcx : x86::ecx, Imm(target)) : a.loop(Imm(target));
+    // (prefixes and options in front of the opcode: the Imm path must account for them - forced REX, branch hints, 67h)
+    case AK_JMPIMM: if (is64 && (it.var & 16)) a.rex(); return a.jmp(Imm(target));
+    case AK_CALLIMM: if (is64 && (it.var & 16)) a.rex(); return a.call(Imm(target));
+    case AK_JCCIMM: if (it.var & 4) a.taken(); else if (it.var & 8) a.not_taken(); return a.j(x86::CondCode(it.cc & 15), Imm(target));
+    case AK_JECXZIMM:
+      if (it.var & 2) return (it.var & 1) ? a.jecxz(is64 ? x86::ecx : x86::cx, Imm(target)) : a.loop(is64 ? x86::ecx : x86::cx, Imm(target));
+      return (it.var & 1) ? a.jecxz(is64 ? x86::rcx : x86::ecx, Imm(target)) : a.loop(Imm(target));
   }
   return Error::kInvalidArgument;
 }
@@ -1474,12 +1787,14 @@ static void build_c04(const ASpec& P, uint64_t B, bool known, AResult& R) {
   }
   std::unique_ptr<x86::Assembler> xa; std::unique_ptr<a64::Assembler> aa; BaseAssembler* ba;
   if (P.arch == A_A64) { aa.reset(new a64::Assembler(&code)); ba = aa.get(); } else { xa.reset(new x86::Assembler(&code)); ba = xa.get(); }
+  if (P.predicted && P.arch != A_A64) ba->add_encoding_options(EncodingOptions::kPredictedJumps);
   std::vector<Label> labs; labs.resize(size_t(P.nlabels));
   for (auto& l : labs) l = ba->new_label();
   R.lsec.assign(size_t(P.nlabels), -1); R.loff.assign(size_t(P.nlabels), 0);
   int cursec = 0;
   for (size_t ii = 0; ii < P.items.size(); ii++) {
     const AItem& it = P.items[ii];
+    if (it.after) continue;
     switch (it.t) {
       case AI_REF: {
         ARef ar; ar.item = int(ii); ar.sec = cursec; ar.pre = uint64_t(ba->offset());
@@ -1500,6 +1815,26 @@ static void build_c04(const ASpec& P, uint64_t B, bool known, AResult& R) {
     ba->section(extra);
     static const uint8_t tail[24] = { 0xEE, 0xEE, 0xEE, 0xEE, 0xEE, 0xEE, 0xEE, 0xEE, 0xEE, 0xEE, 0xEE, 0xEE, 0xEE, 0xEE, 0xEE, 0xEE, 0xEE, 0xEE, 0xEE, 0xEE, 0xEE, 0xEE, 0xEE, 0xEE };
     ba->embed(tail, sizeof tail);
+    // a label and reference sites behind the address table (slot displacements are negative from here, absolute
+    // addresses depend on the table's reserved size)
+    int xsec = int(extra->section_id());
+    if (P.after_label >= 0) {
+      uint64_t o = uint64_t(ba->offset()); Error e = ba->bind(labs[size_t(P.after_label)]);
+      if (e != Error::kOk) harness_fail(fmt("bind in .after: %s", errname(e)));
+      R.lsec[size_t(P.after_label)] = xsec; R.loff[size_t(P.after_label)] = o;
+    }
+    for (size_t ii = 0; ii < P.items.size(); ii++) {
+      const AItem& it = P.items[ii];
+      if (!it.after || it.t != AI_REF) continue;
+      ARef ar; ar.item = int(ii); ar.sec = xsec; ar.pre = uint64_t(ba->offset());
+      ar.err = emit_c04_ref(ba, P.arch, it, a_target(it, B, P.arch, ar.pre), labs);
+      ar.post = uint64_t(ba->offset());
+      if (ar.err == Error::kOk && ar.post > ar.pre) ar.emitted.assign(extra->data() + ar.pre, extra->data() + ar.post);
+      R.refs.push_back(ar);
+      CNT["c04_references_behind_addrtab_section"]++;
+    }
+    static const uint8_t tail2[8] = { 0xEF, 0xEF, 0xEF, 0xEF, 0xEF, 0xEF, 0xEF, 0xEF };
+    ba->embed(tail2, sizeof tail2);
   }
   Error fe = code.flatten();
   if (fe != Error::kOk) { viol(fmt("c04:flatten-error:%s", errname(fe)), "flatten failed"); return; }
@@ -1514,7 +1849,7 @@ static void build_c04(const ASpec& P, uint64_t B, bool known, AResult& R) {
       int done = 0;
       for (size_t ii = 0; ii < P.items.size() && done < P.late; ii++) {
         const AItem& it = P.items[ii];
-        if (it.t != AI_REF) continue;
+        if (it.t != AI_REF || it.after) continue;
         if (!(it.kind == AK_JMPIMM || it.kind == AK_CALLIMM || it.kind == AK_JCCIMM || it.kind == AK_A64IMM || it.kind == AK_MEMABS || it.kind == AK_MOVABS)) continue;
         ARef ar; ar.item = int(ii); ar.sec = lastsec; ar.pre = uint64_t(ba->offset());
         ar.err = emit_c04_ref(ba, P.arch, it, a_target(it, B, P.arch, ar.pre), labs);
@@ -1572,7 +1907,7 @@ static void eval_c04(const ASpec& P, uint64_t B, bool known, AResult& R, Rng& sr
   const char* an = kArchName[P.arch];
   bool is64 = P.arch != A_X86;
   uint64_t amask = is64 ? ~0ull : 0xFFFFFFFFull;
-  R.verdict.assign(R.refs.size(), V_NONE); R.designated.assign(R.refs.size(), 0);
+  R.verdict.assign(R.refs.size(), V_NONE); R.designated.assign(R.refs.size(), 0); R.forms.assign(R.refs.size(), std::string()); R.ffmt.assign(R.refs.size(), F_NONE);
   std::string cfg = std::string(base_class(B)) + ":" + (known ? "base-known" : "base-at-relocate") + ":" + (!R.has_addrtab ? "no-addrtab" : R.addrtab_last ? "addrtab-last" : "addrtab-not-last");
   bool reloc_ok = R.reloc == Error::kOk;
   if (reloc_ok) {
@@ -1588,7 +1923,30 @@ static void eval_c04(const ASpec& P, uint64_t B, bool known, AResult& R, Rng& sr
   for (size_t i = 0; i < R.refs.size(); i++) {
     const ARef& ar = R.refs[i]; const AItem& it = P.items[size_t(ar.item)];
     CNT["c04_refs"]++;
-    if (ar.err != Error::kOk) { R.verdict[i] = V_EMIT_ERR; CNT[std::string("c04_emit_error_") + kAKName[it.kind]]++; continue; }
+    if (ar.err != Error::kOk) {
+      R.verdict[i] = V_EMIT_ERR; CNT[std::string("c04_emit_error_") + kAKName[it.kind]]++; R.forms[i] = errname(ar.err);
+      // "targets that cannot be reached are reported" - and only those: a branch to an absolute target may be refused at emit
+      // time only by the direct path (base and section offset known) and only when no form of the instruction reaches it
+      bool branch = it.kind == AK_JMPIMM || it.kind == AK_CALLIMM || it.kind == AK_JCCIMM || it.kind == AK_JECXZIMM;
+      if (branch || (it.kind == AK_A64IMM && a64_fmt_of_class(a64_expected_class(it.var)) != F_ADRP)) {
+        uint64_t tgt = a_target(it, B, P.arch, ar.pre);
+        uint64_t st = (B + R.S[size_t(ar.sec)] + ar.pre) & amask;
+        bool legit = false; int64_t need = 0;
+        if (known) {
+          if (it.kind == AK_A64IMM) { need = int64_t(tgt - st); legit = !fits(a64_fmt_of_class(a64_expected_class(it.var)), need); }
+          else if (it.kind == AK_JECXZIMM) { uint64_t l8 = 2 + ((it.var & 2) ? 1 : 0); need = is64 ? int64_t(tgt - (st + l8)) : sx(tgt - (st + l8), 32); legit = !fits(F_REL8, need); }
+          else if (it.kind == AK_JCCIMM) { uint64_t l32 = 6 + (((it.var & 12) && P.predicted) ? 1 : 0); need = int64_t(tgt - (st + l32)); legit = is64 && !fits(F_REL32, need); }
+        }
+        if (legit) { CNT["c04_emit_errors_judged_target_out_of_reach"]++; g_classes.insert(std::string("c04:") + an + ":" + (it.kind == AK_A64IMM ? std::string("a64-imm:") + kKindName[it.var] : std::string(kAKName[it.kind])) + ":" + cfg + ":unreachable-reported-at-emit"); }
+        else viol(it.kind == AK_A64IMM ? fmt("c04:reachable-target-rejected-at-emit:a64-imm:%s:%s", kKindName[it.var], known ? "base-known" : "base-at-relocate")
+                                       : fmt("c04:reachable-target-rejected-at-emit:%s:%s", kAKName[it.kind], known ? "base-known" : "base-at-relocate"),
+                  fmt("%s %s to 0x%llx from 0x%llx (%s) was refused at emit time with %s; %s", an, it.kind == AK_A64IMM ? kKindName[it.var] : kAKName[it.kind], (ull)tgt, (ull)st, cfg.c_str(), errname(ar.err),
+                      known ? fmt("the distance %lld fits a form of the instruction", (sll)need).c_str() : "without a known base the reference is a relocation, there is nothing to refuse yet"));
+        CNT["c04_emit_errors_judged"]++;
+      }
+      continue;
+    }
+    if (it.after) CNT["c04_references_behind_addrtab_evaluated"]++;
     uint64_t target = a_target(it, B, P.arch, ar.pre);
     uint64_t site = (B + R.S[size_t(ar.sec)] + ar.pre) & amask, site_end = (B + R.S[size_t(ar.sec)] + ar.post) & amask;
     uint64_t len = ar.post - ar.pre;
@@ -1602,6 +1960,7 @@ static void eval_c04(const ASpec& P, uint64_t B, bool known, AResult& R, Rng& sr
       case AK_EMBED: case AK_MEM32: {
         int ls = R.lsec[size_t(it.label)];
         want = (B + R.S[size_t(ls)] + R.loff[size_t(it.label)] + uint64_t(int64_t(it.kind == AK_MEM32 ? it.disp : 0)));
+        if (it.kind == AK_MEM32 && it.ripform) { want = B + R.S[size_t(ar.sec)] + ar.post + uint64_t(int64_t(it.disp)); form = "x86-32[rip+disp]"; }   // what the operand would designate if 32-bit code had it: end of the instruction + disp
         int fsize = it.kind == AK_MEM32 ? 4 : (it.size ? it.size : (is64 ? 8 : 4));
         uint64_t fpos = 0;
         if (it.kind == AK_MEM32) {
@@ -1609,8 +1968,9 @@ static void eval_c04(const ASpec& P, uint64_t B, bool known, AResult& R, Rng& sr
           if (reloc_ok) { XLoc xl = x86_locate(p, int(len), false); if (xl.cls != XC_MODRM || (xl.memkind != MK_ABS32 && xl.memkind != MK_ABS_SIB) || xl.trail != kMemVars[it.var].trail) { viol("c04:x86-32[label]:site-not-decodable", hexstr(p, size_t(len))); judged = false; break; } fpos = uint64_t(xl.fpos); }
         }
         else form += fmt(".%d", fsize);
-        if (fsize == 4 && (want & ~0xFFFFFFFFull)) { unrepresentable = true; want &= 0xFFFFFFFFull; }   // 32-bit targets: wrap-around or an error are both fine
-        if (reloc_ok) { got = rd(p + fpos, fsize); ok = got == want && !(unrepresentable && is64); }
+        if (fsize < 8 && (want >> (8 * fsize))) { unrepresentable = true; want &= (1ull << (8 * fsize)) - 1; }   // 32-bit code, 4-byte field: wrap-around or an error are both fine; otherwise it has to be an error
+        if (reloc_ok) { got = rd(p + fpos, fsize); ok = got == want && !(unrepresentable && (is64 || fsize < 4)); if (ok && fsize < 4) CNT["c04_embed_label_1_or_2_bytes_verified"]++; if (ok && it.ripform) CNT["c04_x86_32_rip_form_verified"]++; }
+        if (unrepresentable && fsize < 4) CNT[reloc_ok ? "c04_embed_label_1_or_2_bytes_unrepresentable_relocate_ok" : "c04_embed_label_1_or_2_bytes_unrepresentable_reported"]++;
         break;
       }
       case AK_DELTA: {
@@ -1665,6 +2025,9 @@ static void eval_c04(const ASpec& P, uint64_t B, bool known, AResult& R, Rng& sr
           int64_t rel = sx(rd(p + xl.fpos, xl.fsize), xl.fsize * 8);
           got = (site_end + uint64_t(rel)) & amask; ok = got == (target & amask);
           form += xl.fsize == 1 ? ".rel8" : ".rel32";
+          R.ffmt[i] = xl.fsize == 1 ? F_REL8 : F_REL32;
+          if (p[0] == 0x67 || p[0] == 0x3E || p[0] == 0x2E || (is64 && p[0] == 0x40 && !(it.kind == AK_JMPIMM || it.kind == AK_CALLIMM))) { form += "+prefix"; CNT["c04_imm_branch_sites_with_prefix"]++; }
+          else if (is64 && (it.kind == AK_JMPIMM || it.kind == AK_CALLIMM) && (it.var & 16)) { form += "+rex"; CNT["c04_imm_branch_sites_with_forced_rex"]++; }
           if (!ok) unrepresentable = !fits(xl.fsize == 1 ? F_REL8 : F_REL32, is64 ? int64_t(target - site_end) : sx(target - site_end, 32));
         }
         else if (xl.cls == XC_MOFFS) {
@@ -1677,6 +2040,8 @@ static void eval_c04(const ASpec& P, uint64_t B, bool known, AResult& R, Rng& sr
           CNT["c04_sites_through_addrtab"]++;
           if (is_call != (it.kind == AK_CALLIMM)) { viol("c04:addrtab:call-jmp-swapped", hexstr(p, size_t(len))); judged = false; break; }
           uint64_t slot_abs = site_end + uint64_t(sx(rd(p + xl.fpos, 4), 32));
+          if (sx(rd(p + xl.fpos, 4), 32) < 0) CNT["c04_sites_through_addrtab_negative_slot_displacement"]++;
+          if (it.var & 16) CNT["c04_sites_through_addrtab_with_forced_rex"]++;
           uint64_t slot_off = slot_abs - B;
           if (!R.has_addrtab || slot_off < R.addrtab_off || slot_off + 8 > R.addrtab_off + R.addrtab_size || ((slot_off - R.addrtab_off) & 7) || slot_off + 8 > R.image.size()) {
             viol("c04:addrtab:slot-outside-table", fmt("%s: %s [rip%+lld] designates image offset 0x%llx, the address table occupies [0x%llx,0x%llx), image size 0x%zx (%s)", an, is_call ? "call" : "jmp", (sll)sx(rd(p + xl.fpos, 4), 32), (ull)slot_off, (ull)R.addrtab_off, (ull)(R.addrtab_off + R.addrtab_size), R.image.size(), cfg.c_str()));
@@ -1692,9 +2057,18 @@ static void eval_c04(const ASpec& P, uint64_t B, bool known, AResult& R, Rng& sr
           uint64_t ea;
           int64_t d32 = sx(rd(p + xl.fpos, 4), 32);
           if (xl.memkind == MK_RIP) { ea = site_end + uint64_t(d32); form += ".rip-rel"; }
-          else if (xl.memkind == MK_ABS_SIB) { if (xl.sib_index) { viol("c04:mem[abs]:unexpected-index", hexstr(p, size_t(len))); judged = false; break; } ea = is64 ? uint64_t(d32) : uint64_t(uint32_t(d32)); form += ".abs32-sib"; }
+          else if (xl.memkind == MK_ABS_SIB) {
+            if (xl.sib_index != (it.kind == AK_MEMABS && it.idx)) { viol("c04:mem[abs]:unexpected-index", hexstr(p, size_t(len))); judged = false; break; }
+            // [disp32 (+ index << shift)]: the address the displacement designates (index 0) - sign-extended in 64-bit mode
+            ea = is64 ? uint64_t(d32) : uint64_t(uint32_t(d32)); form += xl.sib_index ? ".abs32-sib+index" : ".abs32-sib";
+            if (xl.sib_index) { if (int((xl.sib >> 6) & 3) != it.shift) { viol("c04:mem[abs]:wrong-index-scale", hexstr(p, size_t(len))); judged = false; break; } CNT["c04_mem_abs_with_index_sites"]++; }
+          }
           else { ea = uint64_t(uint32_t(d32)); form += ".abs32"; }
-          if (xl.has67 && is64) { ea &= 0xFFFFFFFFull; form += "+67"; }
+          if (xl.has67 && is64) {
+            ea &= 0xFFFFFFFFull; form += "+67";
+            // with an index the whole sum wraps at 2^32: a "negative displacement" (bits 63..31 all set) keeps its meaning
+            if (xl.sib_index && (target >> 31) == 0x1FFFFFFFFull) ea |= 0xFFFFFFFF00000000ull;
+          }
           bool is_lea = !xl.vex && xl.map == 0 && xl.op == 0x8D;
           if (is_lea && is64 && !(xl.rex & 8)) { ea &= 0xFFFFFFFFull; form += "+lea32"; }
           ea &= amask;
@@ -1702,23 +2076,29 @@ static void eval_c04(const ASpec& P, uint64_t B, bool known, AResult& R, Rng& sr
           int want_trail = it.kind == AK_MEMABS ? kMemVars[it.var].trail : 0;
           if (xl.trail != want_trail) { viol("c04:mem[abs]:trailing-immediate-size", fmt("%s %s", form.c_str(), hexstr(p, size_t(len)).c_str())); judged = false; break; }
           if (!ok && xl.memkind == MK_RIP) unrepresentable = !fits(F_REL32, int64_t(target - site_end));
+          if (!ok && xl.memkind == MK_ABS_SIB && xl.sib_index) unrepresentable = true;    // a wrong [disp32 + index] can only be a disp32 that cannot hold the address
+          if (xl.memkind == MK_RIP) R.ffmt[i] = F_REL32;
         }
         else { viol(fmt("c04:%s:unexpected-form", kAKName[it.kind]), hexstr(p, size_t(len))); judged = false; }
         break;
       }
     }
     if (!reloc_ok) { if (unrepresentable) { CNT["c04_unreachable_reported:" + form]++; R.reloc_fail_justified = true; R.fail_reason = fmt("%s to 0x%llx from 0x%llx", form.c_str(), (ull)target, (ull)site); g_classes.insert(std::string("c04:") + an + ":" + form + ":" + cfg + ":unreachable-reported"); } R.verdict[i] = V_NOT_JUDGED; continue; }
+    R.forms[i] = form;
     if (!judged) { if (R.verdict[i] == V_NONE) R.verdict[i] = V_NOT_JUDGED; continue; }
     R.designated[i] = got;
     if (ok) {
       R.verdict[i] = V_OK; CNT["c04_refs_verified"]++;
+      if (it.kind == AK_MOVABS && it.modopt && form.find("moffs", 12) == std::string::npos) CNT["c04_mov_acc_with_mod_rm_option_verified_in_modrm_form"]++;
       g_classes.insert(std::string("c04:") + an + ":" + form + ":" + cfg);
       if (g_decode.size() < g_decode_cap && P.arch != A_A64 && it.kind >= AK_MOVABS && it.kind <= AK_JECXZIMM && sr.chance(1, 10))
         g_decode.push_back(fmt("{\"arch\":\"%s\",\"what\":\"c04\",\"form\":%s,\"bytes\":\"%s\",\"site\":\"%llu\",\"target\":\"%llu\",\"slot\":%d}", an, jstr(form).c_str(), hexstr(p, size_t(len)).c_str(), (ull)site, (ull)(form.find(".addrtab") != std::string::npos ? site_end + uint64_t(sx(rd(p + len - 4, 4), 32)) : target), form.find(".addrtab") != std::string::npos ? 1 : 0));
     }
     else {
       R.verdict[i] = V_WRONG;
-      viol(fmt("c04:%s:%s:%s", an, form.c_str(), unrepresentable ? "unreachable-not-reported" : "wrong-target"),
+      // (mem[abs] with an index: the class comes first in the key, the instruction variant last)
+      viol(it.kind == AK_MEMABS && it.idx ? fmt("c04:%s:mem[abs]+index:%s:%s", an, unrepresentable ? "unreachable-not-reported" : "wrong-target", form.c_str())
+                                          : fmt("c04:%s:%s:%s", an, form.c_str(), unrepresentable ? "unreachable-not-reported" : "wrong-target"),
            fmt("%s %s at 0x%llx (%s): designates 0x%llx, requested 0x%llx; bytes %s", an, form.c_str(), (ull)site, cfg.c_str(), (ull)got, (ull)want, hexstr(p, size_t(std::min<uint64_t>(len, 16))).c_str()));
     }
   }
@@ -1746,6 +2126,7 @@ static void run_c04(Rng& r, int nbases) {
   ASpec P = gen_c04(r);
   if (r.below(3) == 0) P.late = int(1 + r.below(4));
   std::vector<uint64_t> bases = c04_bases(r, P.arch, nbases);
+  if (P.small_fields) { bases.insert(bases.begin(), { 0x0, 0x100, 0x1000 }); std::sort(bases.begin(), bases.end()); bases.erase(std::unique(bases.begin(), bases.end()), bases.end()); if (bases.size() > size_t(nbases)) bases.resize(size_t(nbases)); CNT["c04_programs_with_small_fields_and_tiny_bases"]++; }
   CNT["c04_programs"]++; CNT[std::string("c04_programs_") + kArchName[P.arch]]++;
   for (uint64_t B : bases) {
     g_prog_desc = fmt("c04 arch=%s sections=%zu items=%zu extra-section-after-addrtab=%d base=0x%llx", kArchName[P.arch], P.secs.size(), P.items.size(), P.extra, (ull)B);
@@ -1769,7 +2150,39 @@ static void run_c04(Rng& r, int nbases) {
           if (it.kind == AK_EMBED || it.kind == AK_MEM32 || it.kind == AK_DELTA || it.tclass == TC_SITE) same = true;   // label positions may differ between the two builds (short/long forms); each was compared with its own expected value
           if (!same) viol("c04:known-base-vs-relocate:different-target", fmt("%s: 0x%llx with the base known at init, 0x%llx when relocated afterwards", kAKName[it.kind], (ull)K.designated[i], (ull)U.designated[i]));
         }
-        else if ((U.verdict[i] == V_OK) != (K.verdict[i] == V_OK) && (U.verdict[i] == V_EMIT_ERR || K.verdict[i] == V_EMIT_ERR)) CNT["c04_known_vs_relocate_one_side_reports_error"]++;
+        else if ((U.verdict[i] == V_OK) != (K.verdict[i] == V_OK) && (U.verdict[i] == V_EMIT_ERR || K.verdict[i] == V_EMIT_ERR)) {
+          // one build encodes the target, the other refuses it at emit time: "assembling with the base known and relocating
+          // afterwards designate the same targets" - unless the refusing build really cannot reach it from where it stands
+          CNT["c04_known_vs_relocate_one_side_reports_error"]++;
+          const AItem& it = P.items[size_t(U.refs[i].item)];
+          bool kerr = K.verdict[i] == V_EMIT_ERR;
+          const AResult& E = kerr ? K : U; const AResult& O = kerr ? U : K;
+          if (g_verbose) CNT[fmt("dbg_one_side:%s:%s-rejects:%s:other=%s", kAKName[it.kind], kerr ? "base-known" : "relocate", E.forms[i].c_str(), O.forms[i].c_str())]++;
+          const ARef& er = E.refs[i]; const ARef& orf = O.refs[i];
+          bool is64 = P.arch != A_X86;
+          uint64_t amask = is64 ? ~0ull : 0xFFFFFFFFull;
+          uint64_t tgt = a_target(it, B, P.arch, er.pre);
+          uint64_t esite = (B + E.S[size_t(er.sec)] + er.pre) & amask, eend = (esite + (orf.post - orf.pre)) & amask;
+          int f = O.ffmt[i];
+          if (it.kind == AK_JMPIMM || it.kind == AK_CALLIMM || it.kind == AK_JCCIMM || it.kind == AK_JECXZIMM) {
+            int64_t need = is64 ? int64_t(tgt - eend) : sx(tgt - eend, 32);
+            if (f == F_NONE) CNT["c04_one_side_error_not_judged:other-side-went-through-addrtab"]++;      // jmp/call rewritten to FF /2, FF /4: beyond rel32 by construction
+            else if (fits(f, need)) viol(fmt("c04:reachable-target-rejected-at-emit:%s:%s", kAKName[it.kind], kerr ? "base-known" : "base-at-relocate"),
+                                         fmt("%s: %s to 0x%llx from 0x%llx was refused (%s) by the build with the base %s, the other build encodes it as %s; the distance %lld fits that form",
+                                             kArchName[P.arch], kAKName[it.kind], (ull)tgt, (ull)esite, E.forms[i].c_str(), kerr ? "given to init" : "given to relocate_to_base", O.forms[i].c_str(), (sll)need));
+            else CNT["c04_one_side_error_justified_out_of_range_from_there"]++;
+          }
+          else if (it.kind == AK_A64IMM) {
+            int af = a64_fmt_of_class(a64_expected_class(it.var));
+            int64_t need = int64_t(tgt - esite);
+            if (af == F_ADRP) CNT["c04_one_side_error_not_judged:adrp(page-aligned-target-rule-of-the-direct-path)"]++;
+            else if (fits(af, need)) viol(fmt("c04:reachable-target-rejected-at-emit:a64-imm:%s:%s", kKindName[it.var], kerr ? "base-known" : "base-at-relocate"),
+                                          fmt("a64 %s to 0x%llx from 0x%llx was refused (%s) by the build with the base %s; the distance %lld fits %s", kKindName[it.var], (ull)tgt, (ull)esite, E.forms[i].c_str(), kerr ? "given to init" : "given to relocate_to_base", (sll)need, kFmtName[af]));
+            else CNT["c04_one_side_error_justified_out_of_range_from_there"]++;
+          }
+          else CNT[fmt("c04_one_side_error_not_judged:%s(designed:addressing-mode-depends-on-a-known-base)", kAKName[it.kind])]++;
+          CNT["c04_one_side_errors_examined"]++;
+        }
       }
     }
     if (g_samples.size() < 3 && U.built && U.refs.size() >= 3) {
